@@ -169,6 +169,50 @@ theorem execS_syscall (fuel : Nat) (id : Nat) (args : List X.Expr) (σ : X.St) (
             exact (rep1.same hs2).setIo _
 
 omit wf in
+theorem resolve_val (xc : X.Ctx) (σ : X.St) (g : String) (w : Word) (h : ValBound xc σ g w) :
+    X.resolveCallee xc σ g = .sys w := by
+  unfold X.resolveCallee
+  rcases h with h | ⟨h1, h2⟩
+  · rw [h]
+  · rw [h1, h2]
+
+omit wf in
+theorem small_toInt (w : Word) (h : w.toNat < 3) : w.toInt = (w.toNat : Int) := by
+  rw [BitVec.toInt_eq_toNat_cond]
+  rw [if_pos (by omega)]
+
+/-- A call through a `val` name is the system call with that number. -/
+theorem execS_valcall (fuel : Nat) (g : String) (args : List X.Expr) (σ : X.St) (w : Word) (hρ : K.ρ g = some w)
+    (hw : w.toNat < 3) (hp : ∀ e ∈ args, pureE e = true) :
+    ExecS K exitJ (optStmt (annotS K.ρ (.call g args))) σ (X.exec fuel K.xc (.call g args) σ) := by
+  intro gs code gs' i a b mem hg hat hr hsz hnl hci
+  have hsys : sysOf K.ρ g = ((w.toNat : Nat) : Int) := by
+    unfold sysOf; rw [hρ]; exact small_toInt w hw
+  have hne : ((w.toNat : Nat) : Int) ≠ -1 := by omega
+  have hg' : genStmt K.ctx (optStmt (annotS K.ρ (.syscall w.toNat args))) gs = .ok (code, gs') := by
+    have h1 : optStmt (annotS K.ρ (.call g args)) = .call ((w.toNat : Nat) : Int) g (optArgsOf K.ρ args) := by
+      simp only [annotS, optStmt, optArgs_map, hsys]
+    have h2 : optStmt (annotS K.ρ (.syscall w.toNat args)) = .call ((w.toNat : Nat) : Int) "" (optArgsOf K.ρ args) := by
+      simp only [annotS, optStmt, optArgs_map, sysId_small w.toNat hw]
+    rw [h1, genStmt_call_eq, if_pos hne] at hg
+    rw [h2, genStmt_call_eq, if_pos hne]
+    exact hg
+  have hx : X.exec fuel K.xc (.call g args) σ = X.exec fuel K.xc (.syscall w.toNat args) σ := by
+    cases fuel with
+    | zero => unfold X.exec; rfl
+    | succ f =>
+      cases ht : X.tick K.xc σ with
+      | none => unfold X.exec; rw [ht]
+      | some st =>
+        have hres := resolve_val K.xc st g w ((hr.same (tick_same _ _ _ ht)).vals g w hρ)
+        conv => lhs; unfold X.exec
+        conv => rhs; unfold X.exec
+        rw [ht]
+        simp only [hres, BitVec.ofNat_toNat, BitVec.setWidth_eq]
+  rw [hx]
+  exact execS_syscall K exitJ wf fuel w.toNat args σ hw hp gs code gs' i a b mem hg' hat hr hsz hnl hci
+
+omit wf in
 theorem optStmt_seq (ρ : String → Option Word) (ss : List X.Stmt) :
     optStmt (annotS ρ (.seq ss)) = .seq (optStmts (annotSL ρ ss)) := by
   simp [annotS, optStmt]
